@@ -196,12 +196,16 @@ class AutoRestartTrick(Trick):
         self._restart_lock = threading.Lock()
 
     def start(self) -> None:
-        if self.debounce_interval_seconds:
-            self.event_debouncer = EventDebouncer(
-                debounce_interval_seconds=self.debounce_interval_seconds,
-                events_callback=lambda events: self._restart_process(),
-            )
-            self.event_debouncer.start()
+        # stop() is final and ends the debouncer it finds: none may be created behind its back, or twice.
+        with self._stopping_lock:
+            if self._is_trick_stopping:
+                return
+            if self.debounce_interval_seconds and self.event_debouncer is None:
+                self.event_debouncer = EventDebouncer(
+                    debounce_interval_seconds=self.debounce_interval_seconds,
+                    events_callback=lambda events: self._restart_process(),
+                )
+                self.event_debouncer.start()
         with self._restart_lock:
             # An event handled before start() has already started the child.
             if self.process is None:
